@@ -6,6 +6,16 @@ Local Open Scope N_scope.
 
 Inductive via := Direct | Evm | Substrate.
 
+(* one argument tuple of a digest computation (see [Digest] below for the meaning per entry point) *)
+Inductive tuple := Tup (v : via) (version : string) (chain : N) (contract : string) (ps : list proposal).
+
+(* one submission of the real Executor.Execute: the session id whose traffic was the only one let
+   through when it happened, the batch that session id stands for (position <i> of the real
+   proposalBatches for <messageID>-<i>; the pending proposals of the delivery for Substrate), the
+   digest the submitted signature verifies for under the committee's key (hex, "" = none), the batch
+   submitted with it *)
+Inductive sess := Sess (sid : string) (batch : list proposal) (signed : string) (submitted : list proposal).
+
 Inductive case :=
 (* the 32 bytes handed to signing.  Direct: chains.ProposalsHash(props, chain, contract, version);
    Evm: BridgeContract.ProposalsHash over a fake client (chain id and contract address come from
@@ -20,14 +30,18 @@ Inductive case :=
 (* arbitrary byte slices, as coded; None = the code panicked *)
 | SigRaw (Rb Sb rec : string) (impl_evm impl_sub : option string)
 (* crypto.Keccak256 against Lib/C02_Keccak *)
-| Kec (msg : string) (impl : string).
-
-Fixpoint bytes_eqb (a b : list N) : bool :=
-  match a, b with
-  | [], [] => true
-  | x :: a', y :: b' => N.eqb x y && bytes_eqb a' b'
-  | _, _ => false
-  end.
+| Kec (msg : string) (impl : string)
+(* several tuples hashed by the real code in one process, sequentially in some order with
+   repetitions or concurrently; seen = (tuple number, a digest returned for it), every distinct
+   answer is listed *)
+| Multi (tuples : list tuple) (seen : list (nat * string))
+(* three relayers ran the real Executor.Execute (v = Evm | Substrate) with real threshold signing;
+   complete = every session produced exactly one submission and every Execute returned *)
+| Exec (v : via) (chain : N) (contract : string) (sessions : list sess) (complete : bool)
+(* the real executeBatch (through the real BridgeContract.ExecuteProposals, read back from the call
+   data) and executeProposal on [batch] while some members count as executed: what was submitted;
+   passed = signature bytes / gas limit arrived unchanged, one call each *)
+| Submit (chain : N) (contract : string) (batch sub_evm sub_sub : list proposal) (passed : bool).
 
 Definition obytes_eqb (a : option (list N)) (b : option string) : bool :=
   match a, b with
@@ -36,14 +50,23 @@ Definition obytes_eqb (a : option (list N)) (b : option string) : bool :=
   | _, _ => false
   end.
 
+Definition model_domain (v : via) (version : string) (chain : N) (contract : string) : domain :=
+  match v with
+  | Direct => {| d_name := bridge_name; d_version := bytes_of_string version;
+                 d_chain := chain; d_contract := unhex contract |}
+  | Evm => bridge_domain chain (unhex contract)
+  | Substrate => bridge_domain chain substrate_contract
+  end.
+
 Definition model_digest (v : via) (version : string) (chain : N) (contract : string)
            (ps : list proposal) : list N :=
-  match v with
-  | Direct => digest keccak256 {| d_name := bridge_name; d_version := bytes_of_string version;
-                                  d_chain := chain; d_contract := unhex contract |} ps
-  | Evm => digest keccak256 (bridge_domain chain (unhex contract)) ps
-  | Substrate => digest keccak256 (bridge_domain chain substrate_contract) ps
-  end.
+  digest keccak256 (model_domain v version chain contract) ps.
+
+Definition tuple_digest (t : tuple) : list N :=
+  match t with Tup v version chain contract ps => model_digest v version chain contract ps end.
+
+Definition session_of (s : sess) : session :=
+  match s with Sess _ b signed sub => {| s_batch := b; s_signed := unhex signed; s_submitted := sub |} end.
 
 Definition agree (c : case) : bool :=
   match c with
@@ -54,6 +77,9 @@ Definition agree (c : case) : bool :=
       obytes_eqb (sig_assemble_bytes (unhex Rb) (unhex Sb) (unhex rec)) e &&
       obytes_eqb (sig_assemble_bytes (unhex Rb) (unhex Sb) (unhex rec)) su
   | Kec m d => bytes_eqb (keccak256 (unhex m)) (unhex d)
+  | Multi _ _ => true (* the judge already is equality with the model *)
+  | Exec _ _ _ _ complete => complete
+  | Submit _ _ b e su passed => proposals_eqb e b && proposals_eqb su b && passed
   end.
 
 Definition judge (c : case) : bool :=
@@ -65,6 +91,17 @@ Definition judge (c : case) : bool :=
   | Sig r s recid e su rec => sig_ok r s recid (unhex e) && sig_ok r s recid (unhex su) && rec
   | SigRaw _ _ _ _ _ => true
   | Kec _ _ => true
+  | Multi ts seen =>
+      (* every answer for tuple i is the EIP-712 digest of tuple i's arguments (Model/C02.multi_ok) *)
+      multi_ok (map tuple_digest ts) (map (fun x => (fst x, unhex (snd x))) seen) &&
+      forallb (fun x => Nat.eqb (String.length (snd x)) 64) seen
+  | Exec v chain contract ss _ =>
+      (* Model/C02.session_ok: signed value = digest of the session's batch = digest of what was
+         submitted with the signature *)
+      forallb (fun s => session_ok keccak256 (model_domain v "3.1.0" chain contract) (session_of s)) ss
+  | Submit chain contract b e su _ =>
+      same_commitment keccak256 (bridge_domain chain (unhex contract)) e b &&
+      same_commitment keccak256 (bridge_domain chain substrate_contract) su b
   end.
 
 Definition tag (c : case) : N :=
@@ -75,6 +112,9 @@ Definition tag (c : case) : N :=
       30 + (if r <? 2 ^ 248 then 1 else 0) + (if s <? 2 ^ 248 then 2 else 0)
   | SigRaw _ _ _ e _ => match e with None => 40 | Some _ => 41 end
   | Kec _ _ => 50
+  | Multi ts _ => 60 + N.min 9 (N.of_nat (List.length ts))
+  | Exec v _ _ ss _ => (match v with Substrate => 80 | _ => 70 end) + N.min 9 (N.of_nat (List.length ss))
+  | Submit _ _ b e _ _ => 90 + (if Nat.eqb (List.length e) (List.length b) then 0 else 1)
   end.
 
 Definition check_all := check_cases agree judge tag.
